@@ -35,6 +35,7 @@ def run(ctx, rep):
     rep.run(RF.rule_not_swallowed, ctx, rep, "V4", min_try=3)
     rep.run(RF.rule_no_write_before_reject, ctx, rep, "V5", min_entries=5)
     rep.run(RF.rule_validations_present, ctx, rep, "V6")
+    rep.run(RF.rule_arity_validated, ctx, rep, "V6")
     rep.run(RF.rule_lookup_validated, ctx, rep, "V6")
     rep.run(RF.rule_namespace_path_lookup, ctx, rep, "V6")
     rep.run(RG.rule_free_text_bounded, ctx, rep, "V7")
